@@ -54,6 +54,10 @@ func genTFTree(r *rng.R, root spec.Kind, maxDepth int) *spec.Spec {
 					v = spec.FloatV(float64(r.Range(-4, 4)) / 2)
 				default:
 					v = spec.StrV(c05Strs[r.Intn(len(c05Strs))])
+					if r.Chance(1, 5) {
+						// a string is a scalar whatever its text looks like: JSON text, a path, a number
+						v = spec.StrV([]string{`{"a":1,"id":2,"key":[3]}`, `[1,[2],{"a":3}]`, `{"0":"zero","1":"one"}`, `[]`, `{}`, `.a.b`, `#0`, `12`, `a`, `{"x":{"a":{"b":1}}}`, `["a","b","c","d","e","f","g","h","i","j","k"]`}[r.Intn(11)])
+					}
 				}
 			}
 			if k == spec.List {
@@ -123,7 +127,7 @@ func corruptions(r *rng.R, root *model.Node, path string) []string {
 		return b.String()
 	}
 	var out []string
-	out = append(out, path+".", path+"#", path[1:], "."+path, "#"+path, path+".zz", path+"#0", path+"#9")
+	out = append(out, path+".", path+"#", path[1:], "."+path, "#"+path, path+".zz", path+"#0", path+"#9", path+".a", path+".id", path+".key#0", path+"#1", path+"#2.a", path+".0", path+".x.a.b")
 	for i := range segs {
 		c := append([]model.Seg{}, segs...)
 		// sigil swapped
